@@ -1,4 +1,4 @@
-CONSTANTS MaxReqs = 2
-Configs <- AllConfigs
+CONSTANTS MaxReqs = 3
+Configs <- PlainConfig
 SPECIFICATION MCSpec
 INVARIANTS TypeOK CursorSync NoOverread OncePerRequest ResponsesFIFO CleanReject StreamExact TracerAlternates PairsBracket NothingAfterClose FinalIndependent
